@@ -57,6 +57,9 @@ impl<'a> Visitor for Enumerate<'a> {
             ps.push(F::from_bits64(b + 1).to64());
             ps.push(F::from_bits64(b - 1).to64());
         }
+        // huge exponents: every coefficient n (n-1) ... x^(n-k) is 0 at zero, however large n is
+        // (a product of the exponent factors formed first overflows: 0 * inf)
+        ps.extend(if F::PREC == 53 { [1e103, 1e155, 1e300] } else { [1e13, 1e20, 1e38] });
         for p in ps {
             let is_int = p.fract() == 0.0;
             if is_int || p > ord {
